@@ -680,6 +680,34 @@ func verifyFunction(P *Program, SS *SpecSet, G *Globals, fn *ssa.Function, con *
 		}
 		vc.assume("true", t, "requires "+cl.Src)
 	}
+	// explicit assumptions of the function's own contract (also in interface /
+	// function-type mode, where names are the own contract's)
+	assumeFrom := func(c *Contract, names map[string]*specBinding) {
+		if c == nil {
+			return
+		}
+		aenv := f.invEnv(names, st)
+		for _, cl := range c.Assumes {
+			t, err := aenv.trBool(cl.Expr)
+			if err != nil {
+				vc.specError(fmt.Sprintf("assumes %s: %v", cl.Src, err), cl)
+				continue
+			}
+			vc.assume("true", t, "assumes "+cl.Src)
+			vc.usedAssumptions["assumed about the inputs of "+canonName(fn)+": "+cl.Src] = true
+		}
+	}
+	assumeFrom(con, f.names)
+	if f.loopCon != nil {
+		nm := map[string]*specBinding{}
+		for k, v := range f.names {
+			nm[k] = v
+		}
+		for k, v := range f.loopNamesBase {
+			nm[k] = v
+		}
+		assumeFrom(f.loopCon, nm)
+	}
 	for _, me := range con.Modifies {
 		func() {
 			defer func() {
